@@ -24,6 +24,10 @@ BASES = ['GE', 'GEQ', 'GEO', 'GEY', 'GDE', 'GEYQ']
 BASES_CASE = ['GEI', 'GEIQ', 'GEC', 'GEIY']
 
 
+ODD_STATE = ['a', 'a\n', 'b\n', '.h\n', 'd/', 'd/a', 'd/a\n', 'a\\']
+ODD_STATE2 = ['a\n/', 'a\n/a', 'a/', 'a/a\n', 'b', '.h']
+
+
 def gl(p, fs, root, **kw):
     return G.glob(p, flags=fscommon.gflags(fs), root_dir=root, **kw)
 
@@ -152,6 +156,8 @@ def plan(tier, seed):
     chunks = [('std', c, 2 if tier == 'quick' else 3) for c in st_chunks]
     cs_chunks, cov2 = fscommon.state_chunks(tier, seed, quick=(2, 2, 1), thorough=(3, 3, 1), names=('a', 'A', 'b'), per_chunk=6)
     chunks += [('case', c, 2 if tier == 'quick' else 3) for c in cs_chunks]
+    # names ending in a newline or a backslash: an exclusion that matches `a` does not match `a\n`
+    chunks += [('std', [ODD_STATE], 2), ('std', [ODD_STATE2], 2)]
     cov['case_layer'] = cov2
     cov.update({'pool': POOL, 'pool_case': POOL_CASE, 'exclusions': EXCL, 'bases': BASES, 'bases_case': BASES_CASE,
                 'presentations': ['exclude=', 'inline', 'inline-first', 'split', 'brace', 'pathlib', 'negation-only', 'negateall'],
